@@ -256,6 +256,39 @@ def compare_snapshots(res, s1, s2, inc):
     return preds, n_bad, n_known
 
 
+def late_custom_downstream(res, missing):
+    """All `missing` instances are downstream of a custom output whose
+    message was lost while the scheduler was down and which the restart
+    poll reported only after the job's final message had been handled."""
+    import re
+    roots = set()
+    for key, msg in res.world.lost_msgs:
+        if not msg.startswith('msg '):
+            continue
+        out = msg[4:]
+        pat = re.compile(
+            r'^\[%s/%s/%02d:(succeeded|failed)[^\]]*\] completed output %s$'
+            % (re.escape(key[0]), re.escape(key[1]), key[2], re.escape(out)))
+        if any(pat.match(m) for _l, m in res.log):
+            roots.add((key[1], res.prog.ppoint(key[0]), out))
+    if not roots:
+        return False
+    model = res.model
+    seen = set()
+    todo = [k for (u, q, o) in roots for k in model.children(u, q, o)]
+    while todo:
+        k = todo.pop()
+        if k in seen:
+            continue
+        seen.add(k)
+        t, p = k
+        outs = ['submitted', 'submit-failed', 'started', 'succeeded',
+                'failed', 'expired'] + list(res.prog.tasks[t].customs)
+        for o in outs:
+            todo.extend(model.children(t, p, o))
+    return set(missing) <= seen
+
+
 def run(params):
     seed = params['seed']
     rng = random.Random(derive_seed(seed, 'swarm'))
@@ -316,6 +349,10 @@ def run(params):
             res, 'stop_point_forgotten', False):
         lb, lr = launched_instances(base), launched_instances(res)
         if set(lb) != set(lr):
+            if not (set(lr) - set(lb)) and late_custom_downstream(
+                    res, set(lb) - set(lr)):
+                preds['continued_run_instances_differ'] = [
+                    'custom_output_polled_after_final_status']
             res.violate('continued_run_instances_differ', {
                 'only_uninterrupted': sorted(res.prog.iid(*i) for i in set(lb) - set(lr)),
                 'only_continued': sorted(res.prog.iid(*i) for i in set(lr) - set(lb)),
